@@ -2,6 +2,7 @@
 
   VERIF_CRASH        "<n>:<SIGNAME>:<logfile>"   kill this process with SIGNAME at the n-th counted line event
                                                  (n = 0: never; only log the crash points to <logfile>)
+  VERIF_CRASH2       "<m>:<SIGNAME>"  second fault in the same process, m counted line events after the first
   VERIF_CRASH_FILES  comma separated file-name suffixes whose executed lines are counted
                      (default experimaestro/run.py)
   VERIF_CRASH_QUAL   optional comma separated qualname substrings: only lines of matching functions are counted
@@ -60,6 +61,8 @@ if _spec and hasattr(sys, "monitoring"):
         _TOOL = 4
         _mon.use_tool_id(_TOOL, "verif-crash")
     _state = {"n": 0, "armed": _arm == "*", "pid": os.getpid()}
+    _second = os.environ.get("VERIF_CRASH2")
+    _second = (int(_second.split(":")[0]), _second.split(":")[1]) if _second else None
 
     def _on_line(code, line):
         fn = code.co_filename
@@ -78,7 +81,13 @@ if _spec and hasattr(sys, "monitoring"):
         if _logpath:
             _append(_logpath, f"{_state['n']} {os.path.basename(fn)}:{line} {code.co_qualname}")
         if _state["n"] == _target:
+            if _second:
+                _state["second"] = _state["n"] + _second[0]
             os.kill(os.getpid(), getattr(signal, _signame))
+        elif _state.get("second") == _state["n"]:
+            # VERIF_CRASH2: a second fault in the same process, m counted line events after the first one (e.g. SIGKILL
+            # while the handler of a termination signal is still cleaning up)
+            os.kill(os.getpid(), getattr(signal, _second[1]))
 
     _mon.register_callback(_TOOL, _mon.events.LINE, _on_line)
     _mon.set_events(_TOOL, _mon.events.LINE)
